@@ -14,8 +14,8 @@ func C06(run *core.Run) {
 	if run.Thorough() {
 		every = 3
 	}
-	syncCheck(run, 4, 15, 2, every, syncOpts{warmViews: true})
+	syncCheck(run, 4, 15, 2, every, syncOpts{label: "pass1(unit 15) ", warmViews: true})
 	// a second pass with single-momentum elements: fork depth exactly 1, 2, 3 real momentums
-	syncCheck(run, 4, 1, 30, every, syncOpts{warmViews: true, local: true})
+	syncCheck(run, 4, 1, 30, every, syncOpts{label: "pass2(unit 1, local dependent block) ", warmViews: true, local: true})
 	run.Finish()
 }
